@@ -1195,6 +1195,15 @@ func sharedLoopCompleteness(c *an.Ctx, rule string, prefixes ...string) (examine
 							}
 						}
 					}
+					// (3) the block only logs the element (a warning about a missing or
+					// unknown one) and then leaves the loop
+					if why == "" && len(b.Succs) == 1 {
+						for _, ins := range b.Instrs {
+							if call, ok := ins.(ssa.CallInstruction); ok && strings.HasPrefix(an.CalleeName(call), "(*log/slog.Logger).") {
+								why = "an element that is only logged (unknown or missing) ends the loop"
+							}
+						}
+					}
 					if why == "" {
 						continue
 					}
@@ -2136,4 +2145,110 @@ var cmdRenamings = map[string]string{
 	"agd.QUICConfig.QUICLimitsEnabled <- cmd.ratelimitQUICConfig.Enabled":                                           "the QUIC section's switch (which section: C20-R5)",
 	"agd.TCPConfig.IdleTimeout <- cmd.dnsConfig.TCPIdleTimeout":                                                     "per-protocol structure drops the prefix",
 	"agd.TCPConfig.MaxPipelineEnabled <- cmd.ratelimitTCPConfig.Enabled":                                            "the TCP section's switch (which section: C20-R5, C18-R6)",
+}
+
+// sharedSortedSearch is the precondition rule for binary searches: a binary
+// search over a slice returns garbage unless the slice is kept sorted by the
+// same order.  For every slices.BinarySearch* / sort.Search* call in the given
+// packages the rule looks for the ordering discipline of the searched slice:
+// (a) the sorted-insert idiom (the function stores slices.Insert(s, i, x) back
+// into the searched location with i the search's own result), or (b) a sort
+// call (slices.Sort*, sort.Slice*, sort.Sort/Stable) over a value of the
+// searched slice's type somewhere in the searched slice's package.  It returns
+// the number of searches examined.
+func sharedSortedSearch(c *an.Ctx, rule string, prefixes ...string) (examined int) {
+	isSearch := func(n string) bool {
+		return strings.HasPrefix(n, "slices.BinarySearch") || n == "sort.Search" || n == "sort.Find" || strings.HasPrefix(n, "sort.Search")
+	}
+	isSort := func(n string) bool {
+		return strings.HasPrefix(n, "slices.Sort") || strings.HasPrefix(n, "sort.Slice") || n == "sort.Sort" || n == "sort.Stable" ||
+			n == "sort.Strings" || n == "sort.Ints" || strings.HasPrefix(n, "slices.Sorted")
+	}
+	base := func(n string) string { // drop the instantiation suffix of a generic
+		if i := strings.Index(n, "["); i >= 0 {
+			return n[:i]
+		}
+		return n
+	}
+	for _, fn := range c.AllFns {
+		if fn.Blocks == nil || c.IsTestFile(fn.Pos()) {
+			continue
+		}
+		k := an.FnKey(fn)
+		in := false
+		for _, p := range prefixes {
+			if strings.HasPrefix(k, p) {
+				in = true
+			}
+		}
+		if !in {
+			continue
+		}
+		for _, call := range an.Calls(fn) {
+			n := base(an.CalleeName(call))
+			if !isSearch(n) || len(call.Common().Args) == 0 {
+				continue
+			}
+			cv, ok := call.(*ssa.Call)
+			if !ok {
+				continue
+			}
+			examined++
+			c.Analysed(k)
+			searched := call.Common().Args[0]
+			key := fmt.Sprintf("%s binary search over %s", k, types.TypeString(searched.Type(), func(p *types.Package) string { return p.Name() }))
+			// (a) sorted insert
+			okIdiom := false
+			sp, hasPath := an.AccessPath(searched)
+			for _, other := range an.Calls(fn) {
+				if base(an.CalleeName(other)) != "slices.Insert" || len(other.Common().Args) < 2 {
+					continue
+				}
+				ip, ok2 := an.AccessPath(other.Common().Args[0])
+				idxFromSearch := false
+				if ex, isEx := other.Common().Args[1].(*ssa.Extract); isEx && ex.Tuple == ssa.Value(cv) && ex.Index == 0 {
+					idxFromSearch = true
+				}
+				if hasPath && ok2 && ip == sp && idxFromSearch {
+					if ov, isV := other.(*ssa.Call); isV && ov.Referrers() != nil {
+						for _, r := range *ov.Referrers() {
+							if st, isSt := r.(*ssa.Store); isSt {
+								if dp, ok3 := an.AccessPath(st.Addr); ok3 && dp == sp {
+									okIdiom = true
+								}
+							}
+						}
+					}
+				}
+			}
+			if okIdiom {
+				c.Ok(rule, key, call.Pos(), "the slice is maintained by sorted insertion at the index this search returns")
+				continue
+			}
+			// (b) a sort over the same slice type in the package
+			sorted := false
+			for _, g := range c.AllFns {
+				if g.Blocks == nil || g.Pkg != fn.Pkg || c.IsTestFile(g.Pos()) {
+					continue
+				}
+				for _, sc := range an.Calls(g) {
+					if !isSort(base(an.CalleeName(sc))) || len(sc.Common().Args) == 0 {
+						continue
+					}
+					at := sc.Common().Args[0].Type()
+					if mi, isMI := sc.Common().Args[0].(*ssa.MakeInterface); isMI {
+						at = mi.X.Type()
+					}
+					if types.Identical(at, searched.Type()) {
+						sorted = true
+					}
+				}
+			}
+			c.Check(sorted, rule, key, call.Pos(),
+				"slices of this type are sorted in the package that searches them",
+				"binary search over a slice that nothing keeps sorted: neither a sorted insertion at this search's index nor any sort of a "+
+					searched.Type().String()+" exists in the package, so the search misses elements that are present")
+		}
+	}
+	return examined
 }
